@@ -17,4 +17,6 @@ def jobs(tier):
             dict(name='handler_wgrupcon', src='h_handlers.cpp', defs={}, entry='h_wgrupcon', tus=HT, fp='real', loopmax=100000, maxsteps=400000000, timeout=1500, opts=['--ctors'],
                  bounds='two report steps sharing two wells; WGRUPCON for one well at the later step with symbolic guide rate and scaling factor'),
             dict(name='handler_wefac', src='h_handlers_well.cpp', defs={}, entry='h_wefac', tus=HT, fp='real', loopmax=100000, maxsteps=400000000, timeout=1500, opts=['--ctors'],
-                 bounds='two report steps sharing two wells; WEFAC for one well at the later step with a symbolic efficiency factor')]
+                 bounds='two report steps sharing two wells; WEFAC for one well at the later step with a symbolic efficiency factor'),
+            dict(name='handler_gefac', src='h_handlers_group.cpp', defs={}, entry='h_gefac', tus=HT, fp='real', loopmax=100000, maxsteps=400000000, timeout=1500, opts=['--ctors'],
+                 bounds='two report steps sharing two groups and two wells; GEFAC for one group at the later step with a symbolic efficiency factor')]
